@@ -10,7 +10,8 @@ from . import common
 
 
 def run_session(files: dict, args=(), env: dict | None = None, stdin: bytes = b"", pyproject: str | None = "",
-                timeout: int = 120, keep: bool = False, pre_existing_dir: pathlib.Path | None = None) -> dict:
+                timeout: int = 120, keep: bool = False, pre_existing_dir: pathlib.Path | None = None,
+                cwd_sub: str | None = None) -> dict:
     d = pre_existing_dir or common.mkscratch("s")
     try:
         if pyproject is not None:
@@ -24,7 +25,13 @@ def run_session(files: dict, args=(), env: dict | None = None, stdin: bytes = b"
                f"--junitxml={junit}", *args]
         e = common.clean_env(env)
         try:
-            r = subprocess.run(cmd, cwd=d, env=e, capture_output=True, input=stdin, timeout=timeout)
+            cwd = d
+            if cwd_sub:
+                # the session is started from another directory; the project is given as an argument
+                cwd = d / cwd_sub
+                cwd.mkdir(parents=True, exist_ok=True)
+                cmd = cmd + [str(d)]
+            r = subprocess.run(cmd, cwd=cwd, env=e, capture_output=True, input=stdin, timeout=timeout)
             rc, out, err = r.returncode, r.stdout.decode("utf-8", "replace"), r.stderr.decode("utf-8", "replace")
         except subprocess.TimeoutExpired:
             rc, out, err = -9, "", "timeout"
